@@ -492,6 +492,7 @@ class EditStreamDefaults(HTMLHandlerBase):
         context['stream'] = current_stream
         return flask.render_template('media/stream_defaults.html', **context)
 
+    @login_required(permission=models.Group.MEDIA)
     def post(self, spk: int) -> flask.Response:
         try:
             self.check_csrf('streams', flask.request.form)
